@@ -400,6 +400,11 @@ func (f *refForest) refBlock(v *refView, maxDel, maxAdd int) *refBlockT {
 			continue
 		}
 		h := verifLeafHash("add")
+		// innerLeaf=1: the third addition of a block may be a leaf whose hash is the hash of the internal node
+		// above the block's first two additions (legal: non-empty and distinct from every live leaf)
+		if i == 2 && verifParam("innerLeaf", 0) == 1 && verifChoose("inner", 0, 1) == 1 {
+			h = refParent(b.adds[0], b.adds[1])
+		}
 		for j := range f.leaves {
 			if f.leaves[j].alive {
 				verifAssume(h != f.leaves[j].hash)
